@@ -56,6 +56,28 @@ def step (t : List String) : String :=
       | some [ts, vs] => if n == 0 then "bad-op" else showFloat (uniformToDefaultTimeF u ts.toArray vs.toArray)
       | _ => "bad-op"
     | _, _ => "bad-op"
+  | "GATL" :: rest =>          -- gauss_approx_tranche_loss(k1, k2, mu, sigma): generated text
+    match floats? rest with
+    | some [k1, k2, mu, sigma] => showFloat (FinVerif.Gen.CreditF.gauss_approx_tranche_loss k1 k2 mu sigma)
+    | _ => "bad-op"
+  | "ELK" :: rest =>           -- exp_min_lk(k, p, r, n, beta) with the value of M supplied: generated text
+    match floats? rest with
+    | some [k, p, r, n, beta, mval] => showFloat (expMinLkF k p r n beta mval)
+    | _ => "bad-op"
+  | "TSL" :: n :: rest =>      -- tr_surv_prob_lhp: `TSL n k1 k2 beta m1 m2 q_0.. R_0..`
+    match nat? n, floats? rest with
+    | some n, some (k1 :: k2 :: beta :: m1 :: m2 :: xs) => match blocks n 2 xs with
+      | some [qs, Rs] => showFloat (trSurvProbLhpF k1 k2 qs Rs beta m1 m2)
+      | _ => "bad-op"
+    | _, _ => "bad-op"
+  | "BSV" :: n :: big :: rest =>   -- basket survival: `BSV n_to_default num_credits dbn_0..`
+    match nat? n, nat? big, floats? rest with
+    | some n, some big, some d => showFloat (basketSurv d n big)
+    | _, _, _ => "bad-op"
+  | "TLF" :: rest =>           -- tranche loss function min(L,k2) - min(L,k1)
+    match floats? rest with
+    | some [l, k1, k2] => showFloat (trancheLoss l k1 k2)
+    | _ => "bad-op"
   | _ => "bad-op"
 
 def main : IO Unit := loop step
